@@ -135,6 +135,83 @@ class Colour(Enum):
 Some_text: str = constant_str(value="x")
 Some_set: Set[str] = constant_set(values=["a", "b"])
 ''',
+    "two-disjoint-patterns-on-one-property": '''
+@verification
+def matches_lower(text: str) -> bool:
+    """Check the text."""
+    pattern = f"^[a-z]+$"
+    return match(pattern, text) is not None
+
+
+@verification
+def matches_digits(text: str) -> bool:
+    """Check the text."""
+    pattern = f"^[0-9]+$"
+    return match(pattern, text) is not None
+
+
+@invariant(lambda self: matches_lower(self.name), "Name must be lower.")
+@invariant(lambda self: matches_digits(self.name), "Name must be digits.")
+class Something(DBC):
+    name: str
+
+    def __init__(self, name: str) -> None:
+        self.name = name
+''',
+    "two-compatible-patterns-on-one-property": '''
+@verification
+def matches_word(text: str) -> bool:
+    """Check the text."""
+    pattern = f"^[a-z0-9]+$"
+    return match(pattern, text) is not None
+
+
+@verification
+def matches_short(text: str) -> bool:
+    """Check the text."""
+    pattern = f"^.{{1,5}}$"
+    return match(pattern, text) is not None
+
+
+@invariant(lambda self: matches_word(self.name), "Name must be a word.")
+@invariant(lambda self: matches_short(self.name), "Name must be short.")
+class Something(DBC):
+    name: str
+
+    def __init__(self, name: str) -> None:
+        self.name = name
+''',
+    "two-patterns-on-a-constrained-primitive-chain": '''
+@verification
+def matches_lower(text: str) -> bool:
+    """Check the text."""
+    pattern = f"^[a-z]+$"
+    return match(pattern, text) is not None
+
+
+@verification
+def matches_upper(text: str) -> bool:
+    """Check the text."""
+    pattern = f"^[A-Z]+$"
+    return match(pattern, text) is not None
+
+
+@invariant(lambda self: matches_lower(self), "Must be lower.")
+class Lower(str, DBC):
+    pass
+
+
+@invariant(lambda self: matches_upper(self), "Must be upper.")
+class Lower_and_upper(Lower, DBC):
+    pass
+
+
+class Something(DBC):
+    name: Lower_and_upper
+
+    def __init__(self, name: Lower_and_upper) -> None:
+        self.name = name
+''',
     "empty-model": "",
 }
 FOOTER = '\n\n__version__ = "dummy"\n__xml_namespace__ = "https://dummy.com"\n'
